@@ -597,8 +597,8 @@ def _case_b02(spec):
             if err <= tol:
                 continue
             name, key = f"coef:{cls}:{cfg}", None
-            if cls == "flat" and abs(got[0] * tg[0] + got[1] * tg[1]) < 0.2:
-                name = f"coef:flat-perpendicular:{cfg}"            # the fitted centre lies on the line itself
+            if cls == "flat" and err > 0.05:
+                name = f"coef:flat-fit-breakdown:{cfg}"            # far beyond ill-conditioning: e.g. the fitted centre lies on the line itself
             if ax is not None:
                 mir = list(tg)
                 mir[ax] = -mir[ax]
@@ -999,7 +999,7 @@ def no_big_lsq(ts, m):
 
 def cases_b02(tier, seed):
     rng = np.random.default_rng(seed + 202)
-    n_arc, n_str, n_lat, n_even = (480, 260, 160, 100) if tier == "quick" else (5500, 3000, 2000, 1500)
+    n_arc, n_str, n_lat, n_even = (480, 260, 160, 100) if tier == "quick" else (9000, 5000, 3000, 2500)
     out = []
     for _ in range(n_arc):
         ts = small_tissue_spec(rng, list(range(0, 16)), moebius=float(rng.choice([0.05, 0.2, 0.4, 0.6, 0.8, 0.95])))
@@ -1037,7 +1037,7 @@ def cases_b02(tier, seed):
 
 def cases_b01(tier, seed):
     rng = np.random.default_rng(seed + 101)
-    n = 600 if tier == "quick" else 6500
+    n = 600 if tier == "quick" else 10000
     out = []
     methods = [None, "lsq_linear", "lsq"]
     for i in range(n):
@@ -1057,7 +1057,7 @@ def cases_b01(tier, seed):
 
 def cases_b05(tier, seed):
     rng = np.random.default_rng(seed + 505)
-    n = 600 if tier == "quick" else 6500
+    n = 600 if tier == "quick" else 10000
     out = [dict(check="B05", tissue=dict(base="flower", seed=0, pts=0), fit="dlite", method="fix_stress"),
            dict(check="B05", tissue=dict(base="hex_patch", seed=1, pts=3, moebius=0.6, mseed=2, noise=dict(sigma=0.05, seed=3)),
                 fit="dlite", method="fix_stress")]
@@ -1083,7 +1083,7 @@ def cases_b05(tier, seed):
 
 def cases_b16(tier, seed):
     rng = np.random.default_rng(seed + 1616)
-    n = 380 if tier == "quick" else 3800
+    n = 380 if tier == "quick" else 5500
     out = []
     for i in range(n):
         curved = rng.random() < 0.5
@@ -1098,6 +1098,13 @@ def cases_b16(tier, seed):
                                            float(rng.uniform(0.5 * math.pi, 0.667 * math.pi) if u < 0.25 else rng.uniform(0.667 * math.pi, math.pi)))
         m = "lsq" if rng.random() < 0.12 else None
         out.append(dict(check="B16", tissue=ts, fit=pick_fit(rng, ts), method=no_big_lsq(ts, m), limit=limit))
+    # 'lsq' back-end with an exclusion: one fixed case known to exclude 2 of 16 interfaces, and a dozen likely ones
+    out.append(dict(check="B16", tissue=dict(base="hex_patch", seed=40, pts=4, noise=dict(sigma=0.3, seed=1062975607)), fit="dlite",
+                    method="lsq", limit=2.6990012373655876))
+    for _ in range(12 if tier == "quick" else 120):
+        ts = dict(base=str(rng.choice(["hex_patch", "flower"])), seed=int(rng.integers(50)), pts=int(rng.choice([0, 2, 4])),
+                  noise=dict(sigma=0.3, seed=int(rng.integers(1 << 30))))
+        out.append(dict(check="B16", tissue=ts, fit="dlite", method="lsq", limit=float(rng.uniform(2.5, 2.9))))
     return out
 
 
@@ -1152,7 +1159,14 @@ def get_pool():
         n = min(NPROC, os.cpu_count() or 1)
         _POOL = (mp.get_context("spawn").Pool(n), n)
         atexit.register(close_pool)
+        _POOL[0].map(_warm, range(2 * n), chunksize=1)        # workers import forsys now: not charged to a check's budget
     return _POOL
+
+
+def _warm(i):
+    _fs()
+    time.sleep(0.05)
+    return i
 
 
 def close_pool():
@@ -1171,15 +1185,16 @@ def run_all(specs, fn, budget):
     as `not_run`, never as passed)"""
     specs = sorted(specs, key=lambda s: -_cost(s))
     serial = mp.current_process().daemon or os.environ.get("FVC_BOUNDED_SERIAL") or len(specs) < 8
-    t0 = time.time()
     out = []
+    if not serial:
+        pool, n = get_pool()
+    t0 = time.time()
     if serial:
         for s in specs:
             if time.time() - t0 > budget:
                 break
             out.append(fn(s))
         return out, len(specs) - len(out)
-    pool, n = get_pool()
     it = pool.imap_unordered(fn, specs)            # chunksize 1: the plain iterator supports next(timeout)
     try:
         while True:
@@ -1223,7 +1238,7 @@ def aggregate(results, not_run, rule, extra_nontrivial_key=()):
 
 def _budget(tier, share=4):
     """seconds after which a check stops collecting results (the file's checks together stay within 45 s / 10 min)"""
-    return (44.0 if tier == "quick" else 580.0) / share
+    return (40.0 if tier == "quick" else 570.0) / share
 
 
 @bounded("B02", ["C02", "C01"], "assembled force-balance system equals the closed-form unit tangents, per coefficient",
@@ -1233,7 +1248,7 @@ def _budget(tier, share=4):
                "0, 1e-12 .. 0.5 degree from a coordinate axis, reflections, scales 1e-3..1e3, shifts; square / brick / hexagon "
                "lattices 3..4 x 3..4 (whole and random connected subsets with holes) at 0, k*90 degrees, k*90 +- 1e-9..2e-3 and "
                "arbitrary angles; 100 (quick) straight tissues with an even number of points per interface and one interface "
-               "0..1e-7 rad from an axis; fit in {dlite, taubinSVD}; ignore_four on/off; quick 1000 cases, thorough 12000")
+               "0..1e-7 rad from an axis; fit in {dlite, taubinSVD}; ignore_four on/off; quick 1000 cases, thorough 19500")
 def run_b02(tier, seed):
     res, nr = run_all(cases_b02(tier, seed), _run_case, _budget(tier))
     return aggregate(res, nr,
@@ -1243,7 +1258,8 @@ def run_b02(tier, seed):
                      "judged); coefficient pair = analytic unit tangent at the junction (segment direction for two-point interfaces), "
                      f"exact 0 elsewhere. Tolerances (absolute on unit vectors): two-point {TOL_TWO:g}; arcs with >=3 points turning by "
                      f">= {FLAT_TURN:g} rad {TOL_ARC:g}; 'flat' = >=3 points on a straight line or an arc turning < {FLAT_TURN:g} rad "
-                     f"(circle fit ill-posed) {TOL_FLAT:g}, counted separately (counts.coef_flat). A mismatch is keyed "
+                     f"(circle fit ill-posed) {TOL_FLAT:g}, counted separately (counts.coef_flat; a flat mismatch > 0.05 is keyed "
+                     "coef:flat-fit-breakdown). A mismatch is keyed "
                      f"{KF_SIGN} only if the predicate holds at that end and the pair equals the mirrored tangent. non-trivial = "
                      "at least one equation pair; distinct = distinct (geometry hash, fit, ignore_four)")
 
@@ -1252,7 +1268,7 @@ def run_b02(tier, seed):
          bound="equilibrium tissues: Voronoi (tension = site distance; hexagonal patch, flower, strip, 25/40-site random, whole and "
                "connected subsets) with 0..16 interior points and their Moebius images (strength 0.1..0.9, 1..16 points); random "
                "rotations / near-axis rotations / reflections / scales 1e-3..1e3 / shifts; generate_mesh(ne=2..12) on 30 % of the "
-               "cases with >=2 points; method in {default, lsq_linear, lsq} x fit in {dlite, taubinSVD}; quick 600, thorough 6500")
+               "cases with >=2 points; method in {default, lsq_linear, lsq} x fit in {dlite, taubinSVD}; quick 600, thorough 10000")
 def run_b01(tier, seed):
     res, nr = run_all(cases_b01(tier, seed), _run_case, _budget(tier))
     return aggregate(res, nr,
@@ -1272,7 +1288,7 @@ def run_b01(tier, seed):
          bound="noisy tissues (vertex noise 0.01..0.3 mesh-edge lengths on straight and Moebius tissues, 0..8 points) and "
                "consistent tissues, whole and sub-tissues (square and rectangular systems), random scale 1e-3..1e3 / rotation / "
                "shift on 30 %; method default and 'lsq' everywhere, 'lsq_linear' on consistent systems; fix_stress twice; "
-               "allow_negatives=False; quick 602, thorough 6502")
+               "allow_negatives=False; quick 602, thorough 10002")
 def run_b05(tier, seed):
     res, nr = run_all(cases_b05(tier, seed), _run_case, _budget(tier))
     return aggregate(res, nr,
@@ -1288,7 +1304,7 @@ def run_b05(tier, seed):
 @bounded("B16", ["C16"], "angle-limit exclusion: flagged set, -1 positions and solution of the restricted system",
          bound="straight and Moebius tissues (whole and sub-tissues), 60 % with vertex noise, random rotation; angle limit uniform "
                "in [0.5 pi, pi], exactly pi, and the default; fit in {dlite, taubinSVD}; back-end default (88 %) and 'lsq'; "
-               "quick 380, thorough 3800")
+               "plus 13 (quick) / 121 (thorough) noisy 'lsq' cases with limits 2.5..2.9; quick 393, thorough 5621")
 def run_b16(tier, seed):
     res, nr = run_all(cases_b16(tier, seed), _run_case, _budget(tier))
     return aggregate(res, nr,
